@@ -19,11 +19,13 @@ res() { echo "$1" | tee -a $OUT/verify.log; }
 cp $DEMO $WT/$PKG/zz_seed_demo_test.go
 DEMORUN="go test -vet=off -count=1 -run Seed ./$PKG/"
 $DEMORUN > $OUT/demo_without.log 2>&1; W0=$?
+# packages whose existing tests already fail (or do not build) on the unchanged tree are not held against the change
+BASEFAIL=""; for t in $TOUCHED; do go test -vet=off -count=1 ./$t/ > /dev/null 2>&1 || BASEFAIL="$BASEFAIL $t"; done
 git apply $P || { res "PATCH-DOES-NOT-APPLY"; cd /; git -C /repo worktree remove --force $WT; exit 2; }
 BUILD=0; for t in $TOUCHED; do go build ./$t/ >> $OUT/build.log 2>&1 || BUILD=1; done
 $DEMORUN > $OUT/demo_with.log 2>&1; W1=$?
 rm -f $WT/$PKG/zz_seed_demo_test.go
-TESTS=0; for t in $TOUCHED; do go test -vet=off -count=1 ./$t/ > $OUT/tests_$(echo $t | tr / _).log 2>&1 || { grep -q "TestNumberToBinary\|TestMerge\|TestNotebookGeneration" $OUT/tests_$(echo $t | tr / _).log && ! grep "^--- FAIL" $OUT/tests_$(echo $t | tr / _).log | grep -qv "TestNumberToBinary\|TestMerge\|TestNotebookGeneration" || TESTS=1; }; done
+TESTS=0; for t in $TOUCHED; do case " $BASEFAIL " in *" $t "*) echo "existing tests of $t fail on the unchanged tree too: ignored" >> $OUT/verify.log; continue;; esac; go test -vet=off -count=1 ./$t/ > $OUT/tests_$(echo $t | tr / _).log 2>&1 || { grep -q "TestNumberToBinary\|TestMerge\|TestNotebookGeneration" $OUT/tests_$(echo $t | tr / _).log && ! grep "^--- FAIL" $OUT/tests_$(echo $t | tr / _).log | grep -qv "TestNumberToBinary\|TestMerge\|TestNotebookGeneration" || TESTS=1; }; done
 cd /; git -C /repo worktree remove --force $WT
 res "build_with_change=$BUILD existing_tests_with_change=$TESTS demo_without_change_exit=$W0 demo_with_change_exit=$W1"
 if [ $BUILD -ne 0 ] || [ $TESTS -ne 0 ] || [ $W0 -ne 0 ] || [ $W1 -eq 0 ]; then res "SEED-NOT-CONFIRMED"; exit 3; fi
